@@ -32,6 +32,7 @@ INITIALS = {
     "bytes": {b"bk": b"bv", "a": val(40)},
     "emptyval": {"e": "", "a": val(40)},
     "large": {"big": val(70000), "a": val(40)},
+    "emptykey": {"": "under the empty key", "a": val(40)},
 }
 KINDS = ["data1", "data2", "meta"]
 
@@ -54,6 +55,8 @@ def operations(full):
     ops.append({b"bk": b"other", "n3": "é"})                   # bytes key, unicode value
     ops.append({"a": val(40, 5), "b": None, "n1": val(9)})     # replace same length + remove + add
     ops.append({"big": "s"})                                   # shrink a large value
+    ops.append({"": "e1"})                                     # add / replace the empty key
+    ops.append({"": None, "b": "y"})                           # remove the empty key, add another
     return ops
 
 
